@@ -71,6 +71,8 @@ pub struct Options {
     pub write_evidence: bool,
     /// Survey mode: run everything, tally violations by oracle, no minimisation (diagnostics only).
     pub survey: bool,
+    /// Directory holding the summaries of the two-build exchange steps (embedded in the evidence).
+    pub xsummary: Option<String>,
 }
 
 impl Options {
@@ -390,6 +392,29 @@ pub fn run_batch(scen: &dyn Scenario, opts: &Options) -> i32 {
         }
     }
 
+    if let Some(dir) = &opts.xsummary {
+        let mut v = vec![];
+        let mut total = 0;
+        if let Ok(rd) = std::fs::read_dir(dir) {
+            let mut names: Vec<_> = rd.filter_map(|e| e.ok()).map(|e| e.path()).collect();
+            names.sort();
+            for pth in names {
+                let is_summary = pth
+                    .file_name()
+                    .and_then(|n| n.to_str())
+                    .is_some_and(|n| n.starts_with("summary-") && n.ends_with(".json"));
+                if is_summary {
+                    if let Ok(j) = std::fs::read_to_string(&pth).map_err(|e| e.to_string()).and_then(|t| crate::json::parse(&t)) {
+                        total += j.get("dictionaries_exchanged").and_then(|x| x.as_i64()).unwrap_or(0);
+                        v.push(j);
+                    }
+                }
+            }
+        }
+        rep.extra_evaluations += total as u64;
+        rep.extra_distinct += total as u64;
+        rep.extra.insert("cross_build_exchange".into(), J::Arr(v));
+    }
     let wall = t0.elapsed().as_secs_f64();
     if opts.write_evidence && status != 2 {
         write_evidence(scen, opts, &rep, wall, violations);
